@@ -66,7 +66,8 @@ def labels_for(name, n):
     if name == "c":
         return [10, 20, 30, 40][:n]
     if name == "d":
-        return [0.5, 1.5, 2.5, 3.5][:n]
+        # (two of them agree to six digits)
+        return [0.5, 0.5000001, 2.5, 3.5][:n]
     if name == "e":
         return ["u", "v", "w", "x"][:n]
     raise KeyError(name)
